@@ -104,3 +104,15 @@ Print Assumptions C14_start_solution_minimises_vehicles.
 Theorem C14_unrestricted_tours_to_flow_refuted : ~ (forall nw ty slots, stmt_tours_give_flow nw ty slots).
 Proof. exact tours_give_flow_refuted. Qed.
 Print Assumptions C14_unrestricted_tours_to_flow_refuted.
+
+(** THE ALLOTTED TRACKS ARE A FUNCTION OF THE MODEL (SlotDist.v over the hand-written binary32 arithmetic F32.v, compared with
+    the code's distribution on every run): whatever the f32 rounding does, every type gets distinct maintenance nodes, each at
+    least once and at most its track count, and summed over the types no slot is handed out more often than it has tracks;
+    the covering circulation of every type is feasible for exactly these slots. *)
+From RS Require Import F32 SlotDist SlotDistStmts SlotDistFacts.
+Theorem C14_distributed_slots_within_tracks : stmt_distribute_within_tracks.
+Proof. exact distribute_within_tracks. Qed.
+Print Assumptions C14_distributed_slots_within_tracks.
+Theorem C14_covering_circulation_exists_for_distributed_slots : stmt_circulation_feasible_distributed.
+Proof. exact circulation_feasible_distributed. Qed.
+Print Assumptions C14_covering_circulation_exists_for_distributed_slots.
